@@ -133,7 +133,16 @@ theorem compile_entry_order_independent (es es' : Entries) (cx : Ctx)
     (nr : (akeys es.routers).Nodup) (ns : (akeys es.splitters).Nodup)
     (nv : (akeys es.resolvers).Nodup) (nd : (akeys es.services).Nodup) :
     compile es cx = compile es' cx :=
-  (compileWith_congr ⟨alook_perm hr nr, alook_perm hs ns, alook_perm hv nv, alook_perm hd nd, hp⟩ _ cx).symm
+  (compileWith_congr (lookEq_outer (alook_perm hr nr) (alook_perm hs ns) (alook_perm hv nv) (alook_perm hd nd) hp) _ cx).symm
+
+/-- … nor on the order in which the Go maps *inside* a resolver entry (`Subsets`, `Failover`) are listed:
+    replacing every resolver entry by one with the same fields whose two maps are permutations
+    (distinct keys) leaves the compilation result unchanged. Together with the theorem above (and
+    transitivity of `=`) this covers every re-listing of the input. -/
+theorem compile_inner_map_order_independent (es : Entries) (cx : Ctx) (f : String → Resolver → Resolver)
+    (hf : ∀ k r, SamePerm r (f k r)) :
+    compile { es with resolvers := es.resolvers.map fun kv => (kv.1, f kv.1 kv.2) } cx = compile es cx :=
+  compileWith_congr (lookEq_inner es f hf) _ cx
 
 /-- The repaired `flattenAdjacentSplitterNodes` visits node keys in `sort.Strings` order, which depends
     only on the *set* of keys, not on the order a Go map hands them out. -/
@@ -296,6 +305,11 @@ def exEntries : Entries :=
 
 example : (akeys exEntries.resolvers).Nodup ∧ exEntries.resolvers.Perm exEntries.resolvers.reverse := by
   refine ⟨by decide, (List.reverse_perm _).symm⟩
+
+/-- `SamePerm` is satisfiable non-trivially: reversing both maps of a resolver with two subsets / failovers -/
+example : SamePerm { subsets := [("v1", 0), ("v2", 1)], failover := [("*", { svc := "b" }), ("v1", { svc := "c" })] }
+    { subsets := [("v2", 1), ("v1", 0)], failover := [("v1", { svc := "c" }), ("*", { svc := "b" })] } :=
+  ⟨rfl, List.Perm.swap _ _ _, by decide, rfl, List.Perm.swap _ _ _, by decide, rfl, rfl, rfl⟩
 
 example : SplitsNE exEntries := by
   intro n ss h
